@@ -33,6 +33,7 @@ func init() {
 			"C03-R5": "deviceByExtID: create an automatic device only for an existing profile without that device",
 			"C03-R7": "authentication settings survive the backend conversion and the profile file cache (enabled iff present; DoH-only flag and hash copied whenever present)",
 			"C03-R10": "every field of a request-information object taken from a pool (the credentials, server name and device result it carries identify the client) is re-initialised on every path",
+			"C03-R11": "identifier extraction helpers: DoH takes the user name of the credentials before the URL path; the server name is used only as an immediate subdomain of a configured device domain; the EDNS scan stops at the first CPE-ID option; invalid identifiers are errors, not anonymous requests",
 			"C03-R9": "profile database lookups by linked IP, dedicated IP, human ID and device ID re-check the current data (shared with C14-R4)",
 			"C03-R8": "a password authenticates only when the hash comparison returns no error",
 			"C03-R6": "identifier channel by transport (DoH: user info > URL path > server name; DoT/DoQ: server name; plain DNS: EDNS option)",
@@ -44,6 +45,7 @@ func init() {
 const dfPkg = "dnssvc/internal/devicefinder."
 
 func runC03(c *an.Ctx) {
+	c03Extraction(c)
 	// ---- R10: recycled request-information objects never carry the previous request's identity data
 	c.Floor("C03-R10", 5)
 	if n := sharedPoolInitSweep(c, "C03-R10", "agd.RequestInfo", "dnsserver.RequestInfo"); n == 0 {
@@ -667,6 +669,240 @@ func runC03R4(c *an.Ctx) {
 				}
 				return "(true, nil)"
 			}
+		},
+	})
+}
+
+// c03Extraction holds the tables of the helpers that extract the device
+// identifier from each channel.
+func c03Extraction(c *an.Ctx) {
+	c.Floor("C03-R11", 5)
+	const df = "dnssvc/internal/devicefinder."
+	decide(c, "C03-R11", df+"(*Default).deviceDataForDoH", an.DecideCfg{
+		Dom: an.Domain{"p1.Userinfo": {an.Nil(), an.NonNil("ui")}, "iderr": an.Bools, "urlerr": an.Bools},
+		OnCall: func(it *an.Interp, name string, args []an.AV) (an.AV, bool) {
+			switch {
+			case name == "(*net/url.Userinfo).Username":
+				return an.Sym("username(" + args[0].String() + ")"), true
+			case strings.HasSuffix(name, "agd.NewDeviceID"):
+				if it.Feature("iderr").IsTrue() {
+					return an.AV{Kind: an.KTuple, Tup: []an.AV{an.CStr(""), an.NonNil("idErr")}}, true
+				}
+				return an.AV{Kind: an.KTuple, Tup: []an.AV{an.Sym("id(" + args[0].String() + ")"), an.Nil()}}, true
+			case strings.HasSuffix(name, ").deviceDataFromDoHURL"):
+				if it.Feature("urlerr").IsTrue() {
+					return an.AV{Kind: an.KTuple, Tup: []an.AV{an.CStr(""), an.Nil(), an.NonNil("urlErr")}}, true
+				}
+				return an.AV{Kind: an.KTuple, Tup: []an.AV{an.Sym("urlid(" + args[1].String() + ")"), an.Sym("urlext"), an.Nil()}}, true
+			case strings.HasSuffix(name, "devicefinder.newDeviceDataError"):
+				return an.NonNil("dataErr(" + args[1].String() + ")"), true
+			}
+			return an.AV{}, false
+		},
+		Expect: func(f an.Features, o an.AOutcome) string {
+			if len(o.Ret) != 3 {
+				return "an (id, extID, err) result"
+			}
+			if !f.IsNil("p1.Userinfo") {
+				if o.HasCall("(*dnssvc/internal/devicefinder.Default).deviceDataFromDoHURL") {
+					return "the URL path not consulted when credentials are present"
+				}
+				if f.B("iderr") {
+					if o.Ret[2].Kind != an.KNil && o.Ret[0].String() == `""` {
+						return ""
+					}
+					return "an error (not an anonymous request) for an invalid identifier in the credentials; got " + o.RetString()
+				}
+				if o.RetString() == "id(username(nonnil:ui)), nil, nil" {
+					return ""
+				}
+				return "the device ID from the user name of the credentials, no human-readable ID; got " + o.RetString()
+			}
+			if f.B("urlerr") {
+				if o.Ret[2].Kind != an.KNil {
+					return ""
+				}
+				return "an error for an invalid URL path"
+			}
+			if o.RetString() == "urlid(p1.URL), urlext, nil" {
+				return ""
+			}
+			return "the identifier from this request's URL path; got " + o.RetString()
+		},
+	})
+	doh, _ := c.ConstInt("agd", "ProtoDoH")
+	dot, _ := c.ConstInt("agd", "ProtoDoT")
+	decide(c, "C03-R11", df+"(*Default).deviceDataFromSrvReqInfo", an.DecideCfg{
+		Dom: an.Domain{"p0.srv.Protocol": an.Ints(doh, dot), "doh": an.Strs("id", "ext", "err", "none"), "len(p0.deviceDomains)": an.Ints(0, 2), "snierr": an.Bools},
+		OnCall: func(it *an.Interp, name string, args []an.AV) (an.AV, bool) {
+			switch {
+			case strings.HasSuffix(name, ").deviceDataForDoH"):
+				switch avStr(it.Feature("doh")) {
+				case "id":
+					return an.AV{Kind: an.KTuple, Tup: []an.AV{an.CStr("dohid"), an.Nil(), an.Nil()}}, true
+				case "ext":
+					return an.AV{Kind: an.KTuple, Tup: []an.AV{an.CStr(""), an.NonNil("dohext"), an.Nil()}}, true
+				case "err":
+					return an.AV{Kind: an.KTuple, Tup: []an.AV{an.CStr(""), an.Nil(), an.NonNil("dohErr")}}, true
+				}
+				return an.AV{Kind: an.KTuple, Tup: []an.AV{an.CStr(""), an.Nil(), an.Nil()}}, true
+			case strings.HasSuffix(name, ").deviceDataFromCliSrvName"):
+				if args[2].String() != "p2.TLSServerName" {
+					return an.Sym("server name of something else"), true
+				}
+				if it.Feature("snierr").IsTrue() {
+					return an.AV{Kind: an.KTuple, Tup: []an.AV{an.CStr(""), an.Nil(), an.NonNil("sniErr")}}, true
+				}
+				return an.AV{Kind: an.KTuple, Tup: []an.AV{an.Sym("sniid"), an.Sym("sniext"), an.Nil()}}, true
+			case strings.HasSuffix(name, "devicefinder.newDeviceDataError"):
+				return an.NonNil("dataErr"), true
+			}
+			return an.AV{}, false
+		},
+		Expect: func(f an.Features, o an.AOutcome) string {
+			isDoH := f.I("p0.srv.Protocol") == doh
+			if isDoH {
+				switch f.S("doh") {
+				case "id":
+					if o.RetString() == `"dohid", nil, nil` {
+						return ""
+					}
+					return "the DoH identifier wins over the server name; got " + o.RetString()
+				case "ext":
+					if o.RetString() == `"", nonnil:dohext, nil` {
+						return ""
+					}
+					return "the DoH human-readable identifier wins over the server name; got " + o.RetString()
+				case "err":
+					if len(o.Ret) == 3 && o.Ret[2].Kind != an.KNil {
+						return ""
+					}
+					return "the DoH extraction error reported; got " + o.RetString()
+				}
+			} else if o.HasCall("(*dnssvc/internal/devicefinder.Default).deviceDataForDoH") {
+				return "DoH channels consulted only for DoH servers"
+			}
+			if f.I("len(p0.deviceDomains)") == 0 {
+				if o.RetString() == `"", nil, nil` {
+					return ""
+				}
+				return "no identifier without configured device domains; got " + o.RetString()
+			}
+			if f.B("snierr") {
+				if len(o.Ret) == 3 && o.Ret[2].Kind != an.KNil {
+					return ""
+				}
+				return "the server-name extraction error reported"
+			}
+			if o.RetString() == "sniid, sniext, nil" {
+				return ""
+			}
+			return "the identifier from the TLS server name; got " + o.RetString()
+		},
+	})
+	decide(c, "C03-R11", df+"(*Default).deviceDataFromCliSrvName", an.DecideCfg{
+		Dom: an.Domain{`(p2 == "")`: an.Bools, `(dom == "")`: an.Bools},
+		OnCall: func(it *an.Interp, name string, args []an.AV) (an.AV, bool) {
+			switch {
+			case strings.HasSuffix(name, "devicefinder.matchDomain"):
+				if args[0].String() != "p2" || args[1].String() != "p0.deviceDomains" {
+					return an.Sym("match of other data"), true
+				}
+				return an.Sym("dom"), true
+			case strings.HasSuffix(name, "optslog.Debug2"):
+				return an.Nil(), true
+			case strings.HasSuffix(name, ").parseDeviceData"):
+				return an.AV{Kind: an.KTuple, Tup: []an.AV{an.Sym("pid"), an.Sym("pext"), an.Sym("perr")}}, true
+			}
+			return an.AV{}, false
+		},
+		Expect: func(f an.Features, o an.AOutcome) string {
+			if f.B(`(p2 == "")`) || f.B(`(dom == "")`) {
+				if o.RetString() == `"", nil, nil` && !o.HasCall("(*dnssvc/internal/devicefinder.Default).parseDeviceData") {
+					return ""
+				}
+				return "no identifier when there is no server name or it is not under a configured device domain; got " + o.RetString()
+			}
+			if o.RetString() == "pid, pext, perr" {
+				return ""
+			}
+			return "the label in front of the matched device domain parsed as the identifier; got " + o.RetString()
+		},
+	})
+	decide(c, "C03-R11", df+"deviceIDFromEDNS", an.DecideCfg{
+		Dom: an.Domain{"opt": an.NilOrNot, "len(opt.Option)": an.Ints(0, 2), "r0": an.Strs("id", "err", "none"), "r1": an.Strs("id", "none")},
+		OnCall: func(it *an.Interp, name string, args []an.AV) (an.AV, bool) {
+			switch {
+			case strings.HasSuffix(name, "dns.Msg).IsEdns0"):
+				v := it.Feature("opt")
+				if v.Kind == an.KNonNil {
+					v.Key = "opt"
+				}
+				return v, true
+			case strings.HasSuffix(name, "devicefinder.deviceIDFromENDSOPT"):
+				i := "0"
+				if strings.Contains(args[0].String(), "[1]") {
+					i = "1"
+				}
+				switch avStr(it.Feature("r" + i)) {
+				case "id":
+					return an.AV{Kind: an.KTuple, Tup: []an.AV{an.CStr("id" + i), an.Nil()}}, true
+				case "err":
+					return an.AV{Kind: an.KTuple, Tup: []an.AV{an.CStr(""), an.NonNil("err" + i)}}, true
+				}
+				return an.AV{Kind: an.KTuple, Tup: []an.AV{an.CStr(""), an.Nil()}}, true
+			}
+			return an.AV{}, false
+		},
+		Expect: func(f an.Features, o an.AOutcome) string {
+			want := `"", nil`
+			if !f.IsNil("opt") && f.I("len(opt.Option)") == 2 {
+				switch f.S("r0") {
+				case "id":
+					want = `"id0", nil`
+				case "err":
+					want = `"", nonnil:err0`
+				default:
+					if f.S("r1") == "id" {
+						want = `"id1", nil`
+					}
+				}
+			}
+			if o.RetString() != want {
+				return want + " (the first option that yields an identifier or an error decides; later options are still examined when earlier ones are unrelated); got " + o.RetString()
+			}
+			return ""
+		},
+	})
+	cpe, _ := c.ConstInt("dnssvc/internal/devicefinder", "DnsmasqCPEIDOption")
+	decide(c, "C03-R11", df+"deviceIDFromENDSOPT", an.DecideCfg{
+		Dom: an.Domain{"code": an.Ints(cpe, 8), "type(p0)": an.Strs("*github.com/miekg/dns.EDNS0_LOCAL", "*github.com/miekg/dns.EDNS0_SUBNET"), "iderr": an.Bools},
+		OnCall: func(it *an.Interp, name string, args []an.AV) (an.AV, bool) {
+			switch {
+			case name == "p0.Option":
+				return it.Feature("code"), true
+			case strings.HasSuffix(name, "agd.NewDeviceID"):
+				if it.Feature("iderr").IsTrue() {
+					return an.AV{Kind: an.KTuple, Tup: []an.AV{an.CStr(""), an.NonNil("idErr")}}, true
+				}
+				return an.AV{Kind: an.KTuple, Tup: []an.AV{an.Sym("devid"), an.Nil()}}, true
+			case strings.HasSuffix(name, "devicefinder.newDeviceDataError"):
+				return an.NonNil("dataErr"), true
+			}
+			return an.AV{}, false
+		},
+		Expect: func(f an.Features, o an.AOutcome) string {
+			want := `"", nil`
+			if f.I("code") == cpe && f.S("type(p0)") == "*github.com/miekg/dns.EDNS0_LOCAL" {
+				want = "devid, nil"
+				if f.B("iderr") {
+					want = `"", nonnil:dataErr`
+				}
+			}
+			if o.RetString() != want {
+				return want + " (only the CPE-ID option carries an identifier; an invalid one is an error); got " + o.RetString()
+			}
+			return ""
 		},
 	})
 }
